@@ -4,38 +4,116 @@
 package bfe_http2
 
 import (
+	"net"
 	"strconv"
 	"strings"
+	"time"
+
+	"github.com/baidu/go-lib/gotrack"
+	http "github.com/bfenetworks/bfe/bfe_http"
+	"github.com/bfenetworks/bfe/bfe_http2/hpack"
 )
 
-// VerifPrioTree is the minimal serverConn state adjustStreamPriority touches (the map of open
-// streams), plus a side list of every stream object ever created so that the out-of-tree
-// verification harness (property C36) can dump parent pointers of closed streams too.
+type verifC36Addr struct{}
+
+func (verifC36Addr) Network() string { return "verif" }
+func (verifC36Addr) String() string  { return "verif" }
+
+type verifC36Conn struct{}
+
+func (verifC36Conn) Read(b []byte) (int, error)         { select {} }
+func (verifC36Conn) Write(b []byte) (int, error)        { return len(b), nil }
+func (verifC36Conn) Close() error                       { return nil }
+func (verifC36Conn) LocalAddr() net.Addr                { return verifC36Addr{} }
+func (verifC36Conn) RemoteAddr() net.Addr               { return verifC36Addr{} }
+func (verifC36Conn) SetDeadline(t time.Time) error      { return nil }
+func (verifC36Conn) SetReadDeadline(t time.Time) error  { return nil }
+func (verifC36Conn) SetWriteDeadline(t time.Time) error { return nil }
+
+// VerifPrioTree is a REAL serverConn without its goroutines (no serve loop, no reader, no writer):
+// the harness of property C36 calls the real serverConn.processHeaders / processPriority /
+// closeStream on the goroutine that created it (serveG), and reads the parent pointers of every
+// stream object ever created (closed ones included) through a side list.
+// Handlers started by processHeaders block until Done().
 type VerifPrioTree struct {
-	sc  *serverConn
-	all []*stream
+	sc      *serverConn
+	all     []*stream
+	release chan struct{}
 }
 
 func NewVerifPrioTree() *VerifPrioTree {
-	return &VerifPrioTree{sc: &serverConn{streams: make(map[uint32]*stream)}}
+	t := &VerifPrioTree{release: make(chan struct{})}
+	s := &Server{MaxConcurrentStreams: 1000}
+	hs := &http.Server{ReadTimeout: time.Hour, WriteTimeout: time.Hour, GracefulShutdownTimeout: time.Hour}
+	c := verifC36Conn{}
+	sc := &serverConn{
+		srv:               s,
+		hs:                hs,
+		conn:              c,
+		remoteAddrStr:     "verif",
+		bw:                newBufferedWriter(c),
+		streams:           make(map[uint32]*stream),
+		readFrameCh:       make(chan readFrameResult),
+		wantWriteFrameCh:  make(chan frameWriteMsg, 8),
+		writeFrameCh:      make(chan frameWriteMsg, 1),
+		wroteFrameCh:      make(chan frameWriteResult, 1),
+		bodyReadCh:        make(chan bodyReadMsg),
+		doneServing:       make(chan struct{}),
+		advMaxStreams:     1000,
+		writeSched:        writeScheduler{maxFrameSize: initialMaxFrameSize},
+		initialWindowSize: initialWindowSize,
+		headerTableSize:   initialHeaderTableSize,
+		serveG:            gotrack.NewGoroutineLock(),
+		pushEnabled:       true,
+		disableDegrade:    true,
+
+		readClientAgainTimeout: defaultReadClientAgainTimeout,
+		timeoutEventCh:         make(chan timeoutEventElem, 8),
+		timeoutValueCh:         make(chan timeoutValueElem, 8),
+	}
+	sc.handler = http.HandlerFunc(func(w http.ResponseWriter, r *http.Request) { <-t.release })
+	sc.flow.add(initialWindowSize)
+	sc.inflow.add(initialWindowSize)
+	sc.hpackEncoder = hpack.NewEncoder(&sc.headerWriteBuf)
+	t.sc = sc
+	return t
 }
 
-// Open mirrors the tree-related lines of serverConn.processHeaders for a new stream:
-// sc.streams[id] = st; if f.HasPriority() { adjustStreamPriority(sc.streams, st.id, f.Priority) }.
-// It reports false (and does nothing) if an object with that id already exists.
-func (t *VerifPrioTree) Open(id uint32, hasPrio bool, p PriorityParam) bool {
-	for _, s := range t.all {
-		if s.id == id {
-			return false
-		}
-	}
-	st := &stream{sc: t.sc, id: id, state: stateOpen}
-	t.all = append(t.all, st)
-	t.sc.streams[id] = st
+// Done ends the connection: handlers see doneServing closed and return.
+func (t *VerifPrioTree) Done() {
+	close(t.sc.doneServing)
+	close(t.release)
+}
+
+// Open runs the REAL serverConn.processHeaders on a decoded request HEADERS frame (END_STREAM and
+// END_HEADERS set, GET / https) for stream id, with the PRIORITY flag and param if hasPrio.
+// It returns "ok" or the class of the error processHeaders returned.
+func (t *VerifPrioTree) Open(id uint32, hasPrio bool, p PriorityParam) string {
+	flags := FlagHeadersEndStream | FlagHeadersEndHeaders
 	if hasPrio {
-		adjustStreamPriority(t.sc.streams, st.id, p)
+		flags |= FlagHeadersPriority
 	}
-	return true
+	hf := &HeadersFrame{FrameHeader: FrameHeader{valid: true, Type: FrameHeaders, Flags: flags, StreamID: id}}
+	if hasPrio {
+		hf.Priority = p
+	}
+	mh := &MetaHeadersFrame{HeadersFrame: hf, Fields: []hpack.HeaderField{
+		{Name: ":method", Value: "GET"}, {Name: ":scheme", Value: "https"},
+		{Name: ":authority", Value: "verif"}, {Name: ":path", Value: "/"}}}
+	before := t.sc.streams[id]
+	err := t.sc.processHeaders(mh)
+	if st := t.sc.streams[id]; st != nil && st != before {
+		t.all = append(t.all, st)
+	}
+	switch err.(type) {
+	case nil:
+		return "ok"
+	case ConnectionError:
+		return "conn"
+	case StreamError:
+		return "stream"
+	}
+	return "other"
 }
 
 // Priority runs the real serverConn.processPriority on a PRIORITY frame.
@@ -44,16 +122,15 @@ func (t *VerifPrioTree) Priority(id uint32, p PriorityParam) {
 	_ = t.sc.processPriority(f)
 }
 
-// Close mirrors what serverConn.closeStream does to the tree: st.state = stateClosed;
-// delete(sc.streams, st.id).
+// Close runs the real serverConn.closeStream on an open stream (no-op otherwise).
 func (t *VerifPrioTree) Close(id uint32) {
 	if st := t.sc.streams[id]; st != nil {
-		st.state = stateClosed
+		t.sc.closeStream(st, errClientDisconnected)
 	}
-	delete(t.sc.streams, id)
 }
 
-// Dump prints every stream object in creation order as id:parent|-:weight:o|c .
+// Dump prints every stream object in creation order as id:parent|-:weight:o|c  (o = in sc.streams and
+// state != stateClosed, c = removed and stateClosed, X = the two disagree).
 func (t *VerifPrioTree) Dump() string {
 	if len(t.all) == 0 {
 		return "-"
@@ -72,10 +149,14 @@ func (t *VerifPrioTree) Dump() string {
 		}
 		sb.WriteByte(':')
 		sb.WriteString(strconv.Itoa(int(s.weight)))
-		if t.sc.streams[s.id] == s {
+		inMap := t.sc.streams[s.id] == s
+		switch {
+		case inMap && s.state != stateClosed:
 			sb.WriteString(":o")
-		} else {
+		case !inMap && s.state == stateClosed:
 			sb.WriteString(":c")
+		default: // map membership and stream state disagree
+			sb.WriteString(":X")
 		}
 	}
 	return sb.String()
